@@ -14,6 +14,7 @@ TwinProp == IF Rec[1].mode = "c18" THEN "C18" ELSE "C16"
 VARIABLES l, nvars, ord, node, root, den, loose, canon, contents, hashes
 INSTANCE BddApi
 vars == <<l, nvars, ord, node, root, den, loose, canon, contents, hashes>>
+tbvars == <<nvars, ord, node, root, den, loose, canon, contents, hashes>>    \* (BddApi's own tuple `bvars` cannot be used under UNCHANGED from here)
 
 EnfC01 == {"C01"}
 EnfC02 == {"C02"}
@@ -46,7 +47,8 @@ Step ==
      /\ CASE e.ev = "reset" -> ResetState(e.n0, e.order) /\ UNCHANGED hashes
           [] e.ev \in Producers -> Produce(e)
           [] e.ev \in Queries -> Query(e)
-          [] e.ev = "panicpair" -> Req(TwinProp, e.npanic = e.cpanic) /\ UNCHANGED bvars   \* one side panicked, the other did not
+          [] e.ev = "burst" -> Req("C07", e.val = e.n) /\ UNCHANGED tbvars      \* n evaluations of a literal of another builder: nothing changes here
+          [] e.ev = "panicpair" -> Req(TwinProp, e.npanic = e.cpanic) /\ UNCHANGED tbvars   \* one side panicked, the other did not
 
 Spec == Init /\ [][Step]_vars
 
